@@ -2,7 +2,7 @@
     Constant / Extract Inductive directives of our own). *)
 From Coq Require Extraction ExtrOcamlBasic.
 From Crdt Require Import model.VClock model.Simple model.Orswot model.MVReg model.Map
-  model.Identifier model.List model.Merkle extract.Glue spec.VClockSpec spec.System spec.OrswotSpec spec.Specs spec.MVRegSystem.
+  model.Identifier model.List model.Merkle model.Serde extract.Glue spec.VClockSpec spec.System spec.OrswotSpec spec.Specs spec.MVRegSystem.
 
 Extraction Language OCaml.
 Extraction "model.ml"
@@ -26,5 +26,7 @@ Extraction "model.ml"
   mv_dec orswot_dec cmap_dec cmap_eqb pn_eqb lww_eqb merkle_eqb mnode_eqb nodemap_eqb
   spec_cmp spec_merge_ok spec_glb_ok spec_reset_ok spec_intersection_ok spec_apply_ok
   spec_validate_ok spec_inc_ok
+  enc dec vclock_codec gcounter_codec pncounter_codec gset_codec reg_codec lww_codec orswot_codec mvreg_codec
+  merkle_codec codec_mapmv codec_mapor codec_mapmm codec_glist codec_list json_size
   deps_clock vec_insert_at vec_remove_at merkle_spec natset_of_list mk_oprec ospec c04_member mvspec gcspec pnspec gsspec maxspec minspec lwwspec glspec lspec
   mv_perm_eqb n_add n_mul z_add z_mul z_opp z_of_n mkqc n_to_nat n_of_nat.
